@@ -89,6 +89,8 @@ async fn serve(router: &Router, req_bytes: &[u8], udp: bool) -> Option<Vec<u8>> 
 
 async fn scenario(fp: FrontPlan) {
     let p = fp.base.clone();
+    // (ECDSA signatures are randomised by ring's own entropy source: same behaviour, other bytes)
+    net::log_payload_hash(false);
     let (world, anchor_keys) = build_world(&p);
     let mut truths = BTreeMap::new();
     for z in &world.zones {
